@@ -5,3 +5,5 @@ LEVEL = "proof"
 LEVEL_TEXT = 'Deductive: match != None implies enough GPUs, each with enough memory, CPU memory and cores, duration allowed; result carries host priority; __and__/__mul__ write nothing reachable before the call and return the field-wise max / merged GPU lists; RequirementUnion.match returns the first matching alternative.'
 TRUSTED = ['text specification = programmatic one (arpeggio parser) is outside the verifier', "float('-inf') modelled as -1e30", 'z3 5.1 / cvc5 1.0.3 / z3 4.8.12 and the VC generator pyvc (validated by seeded changes, pre-fix replays and the CPython replay of counterexamples; not verified)', 'Python semantics of DESIGN 2.3 (mathematical ints and reals, left-to-right evaluation, no monkey-patching, assert not compiled out)', 'heap typing: declared field/parameter classes are assumed on reads and checked on writes in the functions under contract', "contracts of externals and of callees outside the list are assumed; every ('ASSUME', ...) clause is listed in DESIGN section 11"]
 LEVEL_NOTE = "text specification = programmatic one (arpeggio parser) is outside the verifier; float('-inf') modelled as -1e30"
+from bounded.specs import run_c18
+BOUNDED = [("requests, hosts, & / * / unions on real objects", run_c18)]
